@@ -5,6 +5,7 @@ and non-vacuity examples live here; helper lemmas are in `Golib/Proof/C12*.lean`
 import Golib.Proof.C12Atomic
 import Golib.Proof.C12KVSpec
 import Golib.Proof.C12Expand
+import Golib.Proof.C12Order
 import Golib.Gen.FactsC12
 
 namespace Golib.C12
@@ -116,6 +117,50 @@ theorem c12_atomic {σ μ : Type} (s₀ : σ) (prog : Nat → List (Act σ μ)) 
   · have := (hi.pre t ht).2.2 s
     rw [hdone] at this
     exact this.symm
+
+/-- `c12_realtime_order` (what turns the serialisation of `c12_atomic` into
+LINEARIZABILITY): the witness order respects real time.  If in some reachable
+configuration `c₁` the call of goroutine `t` has already entered its critical section
+(in particular: if it has finished) and the call of `u` has not yet entered, then in
+every later configuration `c₂` the sequential history of `c12_atomic` lists `t` before
+`u`: `c₂.order = c₁.order ++ post` with `t` in the first part and `u` only in `post`.
+Consequence for a goroutine that issues several calls one after the other (each call
+starts after the previous one returned): they are calls of the one-call machine that are
+ordered in real time, so the sequential history keeps their program order. -/
+theorem c12_realtime_order {σ μ : Type} (s₀ : σ) (prog : Nat → List (Act σ μ)) (init : Nat → μ)
+    (h : ∀ t, bodyOK (evs (prog t)) = true)
+    (c₁ c₂ : Conf σ μ) (hr₁ : Reach (Conf.init s₀ prog init) c₁) (hr₂ : Reach c₁ c₂)
+    (t u : Nat) (ht : t ∈ c₁.order) (hu : u ∉ c₁.order) (hu₂ : u ∈ c₂.order) :
+    c₂.order.Nodup ∧ ∃ post, c₂.order = c₁.order ++ post ∧ t ∈ c₁.order ∧ u ∈ post ∧ u ∉ c₁.order := by
+  obtain ⟨post, hpost⟩ := hr₂.order_prefix
+  refine ⟨(c12_atomic s₀ prog init h c₂ (hr₁.trans hr₂)).1, post, hpost.symm, ht, ?_, hu⟩
+  rw [← hpost] at hu₂
+  rcases List.mem_append.1 hu₂ with h' | h'
+  · exact absurd h' hu
+  · exact h'
+
+/-- Non-vacuity of `c12_realtime_order`: goroutine 0 runs `Set(1,5)` to completion, then
+goroutine 1 enters `Get(1)`: the order is `[0, 1]` and goroutine 1 reads 5. -/
+example : ∃ c₁ c₂ : Conf KV Loc,
+    Reach (Conf.init [] (fun t => if t = 0 then body (.set 1 5) else body (.get 1)) (fun _ => {})) c₁ ∧
+    Reach c₁ c₂ ∧ (c₁.th 0).rest = [] ∧ c₁.order = [0] ∧ c₂.order = [0, 1] ∧ (c₂.th 1).loc.val = 5 := by
+  let w : A := wr (fun s l => (s.set 1 5, l))
+  let c₀ : Conf KV Loc :=
+    Conf.init [] (fun t => if t = 0 then body (.set 1 5) else body (.get 1)) (fun _ => {})
+  let d₁ := c₀.after 0 aLock [w, aUnlock]
+  let d₂ := d₁.after 0 w [aUnlock]
+  let d₃ := d₂.after 0 aUnlock []
+  let d₄ := d₃.after 1 aRLock [rdLookup 1, aRUnlock]
+  let d₅ := d₄.after 1 (rdLookup 1) [aRUnlock]
+  have s1 : Step c₀ d₁ := Step.mk c₀ 0 aLock [w, aUnlock] rfl (fun _ => rfl)
+  have s2 : Step d₁ d₂ := Step.mk d₁ 0 w [aUnlock] rfl trivial
+  have s3 : Step d₂ d₃ := Step.mk d₂ 0 aUnlock [] rfl trivial
+  have s4 : Step d₃ d₄ := Step.mk d₃ 1 aRLock [rdLookup 1, aRUnlock] rfl (by
+    intro u
+    by_cases hu : u = 0 <;> simp [d₃, d₂, d₁, c₀, Conf.after, upd, hu, Mode.next, aUnlock, aLock, w, wr, Conf.init])
+  have s5 : Step d₄ d₅ := Step.mk d₄ 1 (rdLookup 1) [aRUnlock] rfl trivial
+  exact ⟨d₃, d₅, Reach.step (Reach.step (Reach.step Reach.refl s1) s2) s3,
+    Reach.step (Reach.step Reach.refl s4) s5, rfl, rfl, rfl, rfl⟩
 
 /-- SafeKV instance of `c12_atomic`: any goroutines, each performing any SafeKV call
 (the modelled bodies are the extracted ones, `c12_model_matches_facts`). -/
